@@ -526,3 +526,27 @@ pub fn deadline_dimension(c: &TextCase, cfg: &mut TextDiffConfig) -> (Option<u64
         _ => (None, false),
     }
 }
+
+/// diffs with thousands of ops in one script (beyond 4096 raw ops): every third item removed,
+/// an item inserted after every third, every fourth replaced - Myers and Patience
+pub fn many_ops_cases() -> Vec<SeqCase> {
+    let mut out = vec![];
+    for alg in 0..2u8 {
+        let a: Vec<u32> = (0..7000).collect();
+        let b: Vec<u32> = a.iter().cloned().filter(|x| x % 3 != 1).collect();
+        out.push(SeqCase::full(alg, a, b));
+        let a: Vec<u32> = (0..6000).collect();
+        let mut b = vec![];
+        for x in &a {
+            b.push(*x);
+            if x % 3 == 2 {
+                b.push(1_000_000 + x);
+            }
+        }
+        out.push(SeqCase::full(alg, a, b));
+        let a: Vec<u32> = (0..5000).collect();
+        let b: Vec<u32> = a.iter().map(|x| if x % 4 == 1 { 2_000_000 + x } else { *x }).collect();
+        out.push(SeqCase::full(alg, a, b));
+    }
+    out
+}
